@@ -23,7 +23,7 @@ ASSUMPTIONS = ["Cantera is trusted; built-ins compared at rtol 1e-9 against a fl
                "pathos pool replaced by the M1 shim here; real pathos pools are driven by C12"]
 REQUIRED_OBS = {"cooked": 60, "recipe:user2": 10, "recipe:user2multi": 10, "recipe:user3": 2,
                 "recipe:HRR": 2, "recipe:ENT": 2, "recipe:SRi": 2, "recipe:SDi": 2, "recipe:RRi": 2,
-                "kept_nonempty": 20, "parallel": 20, "callable": 5}
+                "kept_nonempty": 20, "parallel": 20, "callable": 5, "cli_runs": 10}
 TIMEOUT = {"quick": 600, "thorough": 2400}
 
 MECH = os.path.join(common.REPO, "test_assets", "drm19.yaml")
@@ -272,5 +272,51 @@ def run_case(case, work, rec):
                               key=key, witness={"config": descr, "differences": probs[:5]})
             else:
                 rec.ok(key, bool(kept_list) or kind in ("user2multi", "SRi", "SDi", "RRi") or nonmono or mode == "parallel")
+    # the chef entry point wires recipe / kept_fields / species / reactions / mech / pressure / outdir
+    cli = common.repo_module("amr_kitchen.chef.cli")
+    cli_cfgs = []
+    if case["kind"] == "user":
+        for kind in ("user2", "user2multi"):
+            if kind == "user2multi" and "f1" not in names:
+                continue
+            cli_cfgs.append((kind, names[-1] + " " + names[0], None, None, None))
+    else:
+        sp = species()
+        s2 = rng.sample(sp, 2)
+        cli_cfgs = [("SDi", "temp", s2, None, 3.0), ("RRi", None, None, [1, 7], 1.0), ("HRR", "density", None, None, 2.0)]
+    for kind, kept, spsel, rxsel, P in cli_cfgs:
+        ci += 1
+        out = os.path.join(work, f"cliout{ci}")
+        if kind.startswith("user"):
+            rp = os.path.join(work, f"recipe_{kind}.py")
+            with open(rp, "w") as f:
+                f.write(USER_RECIPES[kind][0])
+            args = ["chef", path, "--recipe", rp, "--outdir", out]
+        else:
+            args = ["chef", path, "--recipe", kind, "--outdir", out, "--mech", MECH, "--pressure", repr(P)]
+            if spsel:
+                args += ["--species"] + spsel
+            if rxsel:
+                args += ["--reactions"] + [str(r) for r in rxsel]
+        if kept:
+            args += ["--kept_fields", kept]
+        key = (digest, "cli", kind, kept, P)
+        descr = "chef " + " ".join(a if len(a) < 40 else os.path.basename(a) for a in args[2:])
+        kept_list = [f for f in (kept.split() if kept else []) if f in names]
+        pools.CTL.reset(mode="inproc", seed=rng.randrange(10 ** 6))
+        try:
+            with common.argv(args):
+                cli.main()
+        except (Exception, SystemExit) as e:
+            rec.violation(f"chef entry point raised {type(e).__name__}: {descr}", key=key,
+                          witness={"argv": descr, "exc": repr(e)[:300]})
+            continue
+        rec.count("cli_runs")
+        probs = judge(out, m, names, kind, kept_list, P, spsel or rxsel)
+        if probs:
+            rec.violation(f"chef entry point: cooked plotfile is not recipe(box) under the right names ({probs[0][:120]}): {descr}",
+                          key=key, witness={"argv": descr, "differences": probs[:4]})
+        else:
+            rec.ok(key, True)
     if any(c[3] for c in pools.CTL.calls) and pools.check_log():
         rec.violation("pool log: " + str(pools.check_log()))
